@@ -45,6 +45,11 @@ CHECKS = {
         technique="TLA+ contract DbPathGuardContract (POSIX physical resolution over a file-system model) vs design DbPathGuard checked by TLC for every spelling <= 4 components; every spelling of the same pools probed on the real NewPebbleScanner over a materialised tree and validated by TLC against the contract evaluated on lstat facts of the real file system",
         text="TLC shows the guard's algorithm equals the physical-resolution contract for all 54k spellings of the model (and that the legacy algorithm does not); ~7000 (thorough ~110k) spellings over symlinks into /etc,/usr,/root, look-alike names, '..' after symlinks and missing leaves are probed read-only on the real code, plus read-write probes through a sacrificial directory under /root; TLC validates each verdict.",
         note=TRUST + "; protected set is the code's documented list; read-write probes never touch real system content"),
+    "C13": dict(
+        level="model_checking", ref="3/C13",
+        technique="TLA+ protocol spec Audit (screen + main call, retries, HTTP- and text-level fault classes) explored exhaustively by TLC (FailClosed, NonPassing); every terminal behaviour replayed on the real llm.CallLLM via a scripted loopback server (permissive beyond the script) and `sfw audit` end to end; observed runs validated by TLC against AuditContract (FailClosed, EnvelopeOK, ExitOK)",
+        text="TLC enumerates all provider-response sequences over the class alphabets (3236 terminal behaviours) and checks the fail-closed invariant on the protocol; the behaviours (stratified sample in quick, all in thorough; OpenAI- and Gemini-style) are replayed on the real client with hostile commit messages, the server answering as permissively as possible once the script is exhausted; verdict/err, every request envelope, and the end-to-end exit status are validated by TLC.",
+        note=TRUST + "; response classes rather than byte-level HTTP fuzzing; envelope facts are parsed by the orchestrator"),
 }
 
 NOT_YET = {}
